@@ -35,6 +35,11 @@ func c17(p *P) {
 			hdrLatest := `SnapshotHeader\.LatestInstance$`
 			certInst := `FinalityCertificate\.GPBFTInstance$`
 			lastInst := `^phi\(.*\)\.GPBFTInstance$`
+			// surplus blocks: the snapshot is accepted only after the reader reported the end of the input
+			// (a loop that stops at the header's latest instance would silently ignore trailing certificates)
+			eof := union(cmpRel("", `readSnapshotBlockBytes\(.*\)#1$`, `^io\.EOF$`, RelNE), callResult("", "errors.Is", `io\.EOF`, -1, avFalse))
+			eof.Name = "end of input observed (no surplus block)"
+			p.guarded("C17.R1", imp, acc, eof)
 			p.guarded("C17.R1", imp, acc,
 				errFails("header block readable", "certstore.readSnapshotBlockBytes", ""),
 				errFails("header decodes", "certstore.SnapshotHeader.UnmarshalCBOR", ""),
@@ -214,6 +219,16 @@ func c17(p *P) {
 				r.Check(strings.Contains(cs.Arg(1), "bytes.NewBuffer(iface:Datastore.Get("), "C17.R3", "export: raw stored bytes are written", p.c.InstrPos(cs.Instr), cs.Arg(1), "writes "+cs.Arg(1))
 				p.guardedAfter("C17.R3", ex, []Sink{{cs.Instr, "block write"}}, errFails("certificate present", "iface:Datastore.Get", ""))
 			}
+		}
+		// the digest covers exactly this export: the hasher behind the hashing writer (and behind Sum) is created by this call
+		for _, fs := range fieldStores(ex, false, "hashWriter", "hasher") {
+			c := canon(fs.Store.Val)
+			fresh := re(`^(changetype )?golang\.org/x/crypto/blake2b\.New(256|512|384)?\(.*\)#0$`).MatchString(c) || re(`^(crypto/sha256|crypto/sha512|golang\.org/x/crypto/blake2b)\.New[0-9_]*\(.*\)(#0)?$`).MatchString(c)
+			r.Check(fresh, "C17.R3", "export: the digest's hasher is created by this export call", p.c.InstrPos(fs.Store), c, "the hashing writer uses "+c+" — a hasher that outlives the call also contains the bytes of earlier exports, so the digest no longer matches the exported bytes")
+		}
+		for _, cs := range callsTo(ex, false, "iface:Hash.Sum") {
+			c := cs.Arg(0)
+			r.Check(strings.Contains(c, "blake2b.New") || strings.Contains(c, "sha256.New") || strings.Contains(c, ".hasher"), "C17.R3", "export: digest taken from the hasher that saw this export's bytes", p.c.InstrPos(cs.Instr), c, "Sum is taken from "+c)
 		}
 		// digest = Sum of the hasher that saw the bytes
 		sums := callsTo(ex, false, "iface:Hash.Sum")
